@@ -12,141 +12,7 @@ from ..engine import flow
 RUN_CONSTANTS = ("self.params", "params", "self.args", "args")   # frozen alias: the argparse namespace, fixed per run
 
 
-def _names_loaded(node):
-    """Dotted roots read by an expression: 'x', 'self.attr', 'obj.attr' (first two components)."""
-    out = set()
-
-    def rec(n):
-        if isinstance(n, ast.Lambda):
-            return
-        if isinstance(n, (ast.Attribute, ast.Name)):
-            d = dotted(n)
-            if d is not None:
-                parts = d.split(".")
-                out.add(".".join(parts[:2]))
-                return
-        if isinstance(n, ast.Call):
-            # callee names are code, not data - except method receivers
-            if isinstance(n.func, ast.Attribute):
-                rec(n.func.value)
-            for a in n.args:
-                rec(a)
-            for k in n.keywords:
-                rec(k.value)
-            return
-        for c in ast.iter_child_nodes(n):
-            rec(c)
-    rec(node)
-    return out
-
-
-def local_defs(func):
-    """name -> list of value expressions assigned to that simple name anywhere in func (incl. loop targets)."""
-    defs = {}
-    for n in walk_no_nested(func):
-        if isinstance(n, ast.Assign):
-            for t in n.targets:
-                if isinstance(t, ast.Name):
-                    defs.setdefault(t.id, []).append(("assign", n.value, n))
-                elif isinstance(t, (ast.Tuple, ast.List)):
-                    for e in t.elts:
-                        if isinstance(e, ast.Name):
-                            defs.setdefault(e.id, []).append(("assign", n.value, n))
-        elif isinstance(n, ast.AugAssign) and isinstance(n.target, ast.Name):
-            defs.setdefault(n.target.id, []).append(("assign", n.value, n))
-        elif isinstance(n, ast.For):
-            for e in ast.walk(n.target):
-                if isinstance(e, ast.Name):
-                    defs.setdefault(e.id, []).append(("loop", n.iter, n))
-        elif isinstance(n, ast.comprehension):
-            for e in ast.walk(n.target):
-                if isinstance(e, ast.Name):
-                    defs.setdefault(e.id, []).append(("loop", n.iter, n))
-    return defs
-
-
-def _assigned_names(st):
-    """Names directly assigned by this statement itself (not nested blocks)."""
-    out = set()
-    if isinstance(st, ast.Assign):
-        for t in st.targets:
-            for e in ([t] if isinstance(t, ast.Name) else (t.elts if isinstance(t, (ast.Tuple, ast.List)) else [])):
-                if isinstance(e, ast.Name):
-                    out.add(e.id)
-    elif isinstance(st, ast.AugAssign) and isinstance(st.target, ast.Name):
-        out.add(st.target.id)
-    return out
-
-
-def reaching_defs(func, name, at_stmt, defs):
-    """Definitions of a simple local name that may reach `at_stmt` (dominating-def kill, loops via back edge)."""
-    all_defs = defs.get(name, [])
-    collected = []
-    cur = at_stmt
-    while cur is not None and cur is not func:
-        parent = getattr(cur, "_parent", None)
-        if parent is None:
-            break
-        blk = None
-        for fld in ("body", "orelse", "finalbody"):
-            b = getattr(parent, fld, None)
-            if isinstance(b, list) and any(x is cur for x in b):
-                blk = b
-        if blk is None and isinstance(parent, ast.ExceptHandler):
-            blk = parent.body
-        if blk is not None:
-            idx = [i for i, x in enumerate(blk) if x is cur][0]
-            for prev in reversed(blk[:idx]):
-                if name in _assigned_names(prev):
-                    return [d for d in all_defs if d[2] is prev] + collected
-                for d in all_defs:
-                    if d[2] is not prev and any(x is d[2] for x in ast.walk(prev)):
-                        collected.append(d)
-            if isinstance(parent, (ast.For, ast.While)) and blk is parent.body:
-                # back edge: anything assigned in the loop body may reach; the loop target itself too
-                for d in all_defs:
-                    if d not in collected and (d[2] is parent or any(x is d[2] for x in ast.walk(parent))):
-                        collected.append(d)
-        cur = parent
-    for d in all_defs:
-        if d[0] == "loop" and d not in collected and any(x is at_stmt for x in ast.walk(d[2])):
-            collected.append(d)
-    return collected if collected else all_defs
-
-
-def dependency_roots(func, exprs, stop_names=(), visited=None, at=None):
-    """Transitive closure of names an expression list depends on, through the local definitions that
-    reach the use (data) and the guards dominating those definitions (control)."""
-    from ..engine.program import enclosing_stmt
-    defs = local_defs(func)
-    params = {a.arg for a in func.args.args + func.args.kwonlyargs}
-    seen = set()
-    roots = set()
-    todo = []
-    for e in exprs:
-        ctxs = at if at is not None else enclosing_stmt(e)
-        todo.extend((n, ctxs) for n in _names_loaded(e))
-    while todo:
-        n, where = todo.pop()
-        if (n, id(where)) in seen:
-            continue
-        seen.add((n, id(where)))
-        if visited is not None:
-            visited.add(n)
-        if "." not in n and n in defs and n not in params:
-            rd = reaching_defs(func, n, where, defs) if where is not None else defs[n]
-            for kind, val, stmt in rd:
-                if kind == "assign":
-                    if visited is not None:
-                        visited.add("=" + src(val))
-                    todo.extend((x, stmt) for x in _names_loaded(val))
-                    for g in flow.guards_of(stmt, stop=func):
-                        todo.extend((x, stmt) for x in _names_loaded(g.test))
-            if any(kind == "loop" for kind, _v, _s in rd):
-                roots.add(n)     # a loop variable is a root of its own (element of the iterable)
-            continue
-        roots.add(n)
-    return roots
+from ..engine.dataflow import _names_loaded, local_defs, reaching_defs, dependency_roots  # noqa: E402
 
 
 def find_memos(prog):
